@@ -476,10 +476,11 @@ NonNormal(o) == \E i \in 1..Len(o.res) : o.res[i].r = "poly" /\ ~NormalData(o.re
 (* Observation: [r |-> "ok", res |-> <<g, a, b as observed polynomials>>] |   *)
 (*   [r |-> "err", e] | [r |-> "timeout"]                                    *)
 (***************************************************************************)
-PEuclidClauses(c, o) ==
-    LET a == FromData(c.P) b == FromData(c.Q) IN
-    IF ~(DataOK(c.P) /\ DataOK(c.Q)) \/ PBad(a) \/ PBad(b) THEN << F("SKIP", "input") >>
-    ELSE IF o.r = "err" THEN << F("peuclid-raised", o.e) >>
+\* A clause with the entry point it is attributed to (see PEuclidClauses / C19_Entry)
+FE(cl, at, ep) == [cl |-> cl, at |-> at, ep |-> ep]
+\* gcd_extended through one entry: o = [r, e, res |-> three polynomial observations]
+PEuclidEE(a, b, o) ==
+    IF o.r = "err" THEN << F("peuclid-raised", o.e) >>
     ELSE IF o.r = "timeout" THEN << F("peuclid-timeout", "") >>
     ELSE IF o.r # "ok" \/ Len(o.res) # 3 \/ \E i \in 1..3 : ~IsPolyObs(o.res[i]) THEN << F("SKIP", "result") >>
     ELSE LET g == FromData(o.res[1].d) u == FromData(o.res[2].d) v == FromData(o.res[3].d)
@@ -489,6 +490,54 @@ PEuclidClauses(c, o) ==
          ELSE (IF PEq(back, g) THEN << >> ELSE << F("peuclid-bezout", "") >>)
               \o (IF Len(g) = Len(tg) /\ PDividesQ(g, a) /\ PDividesQ(g, b) THEN << >>
                   ELSE << F("peuclid-not-gcd", "") >>)
+\* gcd through one entry: o = a polynomial observation
+PEuclidGcd(a, b, o) ==
+    IF o.r = "err" THEN << F("peuclid-raised", o.e) >>
+    ELSE IF o.r = "timeout" THEN << F("peuclid-timeout", "") >>
+    ELSE IF ~IsPolyObs(o) THEN << F("SKIP", "gcd-result") >>
+    ELSE LET g == FromData(o.d) tg == PGcdQ(a, b) IN
+         IF PBad(g) \/ PBad(tg) THEN << F("SKIP", "coeffs") >>
+         ELSE IF Len(g) = Len(tg) /\ PDividesQ(g, a) /\ PDividesQ(g, b) THEN << >>
+         ELSE << F("peuclid-gcd-not-gcd", "") >>
+\* lcm through one entry, consistent with the gcd: a common multiple of degree
+\* deg a + deg b - deg gcd (over Q[x], unit factors free); lcm(0, b) = 0; lcm(0, 0) is 0/0
+PEuclidLcm(a, b, o) ==
+    IF o.r = "timeout" THEN << F("peuclid-timeout", "") >>
+    ELSE IF Len(a) = 0 /\ Len(b) = 0 THEN
+        (IF o.r = "err" \/ (IsPolyObs(o) /\ Len(FromData(o.d)) = 0) THEN << >>
+         ELSE IF ~IsPolyObs(o) THEN << F("SKIP", "lcm-result") >> ELSE << F("peuclid-lcm-wrong", "") >>)
+    ELSE IF o.r = "err" THEN << F("peuclid-raised", o.e) >>
+    ELSE IF ~IsPolyObs(o) THEN << F("SKIP", "lcm-result") >>
+    ELSE LET l == FromData(o.d) tg == PGcdQ(a, b) IN
+         IF PBad(l) \/ PBad(tg) THEN << F("SKIP", "coeffs") >>
+         ELSE IF Len(a) = 0 \/ Len(b) = 0 THEN (IF Len(l) = 0 THEN << >> ELSE << F("peuclid-lcm-wrong", "") >>)
+         ELSE IF PDividesQ(a, l) /\ PDividesQ(b, l) /\ Deg(l) = Deg(a) + Deg(b) - Deg(tg) THEN << >>
+         ELSE << F("peuclid-lcm-wrong", "") >>
+\* all three functions of one entry: oe = [ep, ee, g, l]
+PEuclidFn(a, b, oe, fn) ==
+    CASE fn = "ee" -> PEuclidEE(a, b, oe.ee) [] fn = "gcd" -> PEuclidGcd(a, b, oe.g) [] fn = "lcm" -> PEuclidLcm(a, b, oe.l)
+\* A failing clause of an entry other than "alg" which the same function of pymbolic.algorithm
+\* fails too is the routine's (no entry named); one that pymbolic.algorithm passes is the entry's.
+TagEntry(cls, ref, ep) ==
+    [i \in 1..Len(cls) |->
+        IF cls[i].cl = "SKIP" \/ \E j \in 1..Len(ref) : ref[j] = cls[i] THEN cls[i]
+        ELSE FE(cls[i].cl, cls[i].at, ep)]
+RECURSIVE FlatSeq(_)
+FlatSeq(ss) == IF Len(ss) = 0 THEN << >> ELSE ss[1] \o FlatSeq(SubSeq(ss, 2, Len(ss)))
+\* case [P, Q, eps |-> entry names], observation [es |-> one [ep, ee, g, l] per entry]; the first
+\* entry is "alg"
+PEuclidClauses(c, o) ==
+    LET a == FromData(c.P) b == FromData(c.Q) IN
+    IF ~(DataOK(c.P) /\ DataOK(c.Q)) \/ PBad(a) \/ PBad(b) THEN << F("SKIP", "input") >>
+    ELSE IF Len(o.es) # Len(c.eps) \/ Len(c.eps) = 0 \/ \E i \in 1..Len(c.eps) : o.es[i].ep # c.eps[i]
+    THEN << F("SKIP", "entries") >>
+    ELSE FlatSeq([i \in 1..Len(c.eps) |->
+            FlatSeq([j \in 1..3 |->
+                LET fn == << "ee", "gcd", "lcm" >>[j]
+                    cls == PEuclidFn(a, b, o.es[i], fn) IN
+                IF c.eps[i] = "alg" THEN cls
+                ELSE TagEntry(cls, IF c.eps[1] = "alg" THEN PEuclidFn(a, b, o.es[1], fn) ELSE << >>,
+                              fn \o "@" \o c.eps[i])])])
 
 (***************************************************************************)
 (* (e) primitives.quotient(n, d) for two integers.                         *)
